@@ -51,8 +51,18 @@ def gen_case(seed):
         sym = rng.choice([[], [], [k], [k], [0, 1]])
         rules.append({'from': rng.choice(units[s][:3]), 'to': rng.choice(units[t][:3]), 'div': div,
                       'kq': rng.choice(['12', '1.1', '0.5', '2', '96', '1', '1']), 'ksym': sym, 'kunit': ('get', 0, kname)})
+    dim_pairs = [('X', 'Y'), ('Y', 'X'), ('X', 'Z'), ('Y', 'Z'), ('Z', 'X'), ('X', 'X'), ('Y', 'Y')]
+    if rng.random() < 0.4:
+        # a generic rule function ("multiply by K") registered for a second pair of dimensions P = X*W -> Q = Y*W as the
+        # very same callable
+        for tag, src in (('P', 'X'), ('Q', 'Y')):
+            ops.append(['add', 0, tag + '0', ('mul', ('ref', src + '0'), ('ref', kbase[0]))])
+            ops.append(['add', 0, tag + '1', ('mul', ('ref', tag + '0'), ('num', rng.choice(['1000', '0.01', '2.5'])))])
+            units[tag] = [('get', 0, tag + '0'), ('get', 0, tag + '1')]
+        rules.append(dict(rules[0], **{'from': rng.choice(units['P']), 'to': rng.choice(units['Q']), 'same_callable_as': 0}))
+        dim_pairs += [('P', 'Q'), ('Q', 'P'), ('P', 'Y'), ('X', 'Q')]
     queries = []
-    for s, t in [('X', 'Y'), ('Y', 'X'), ('X', 'Z'), ('Y', 'Z'), ('Z', 'X'), ('X', 'X'), ('Y', 'Y')]:
+    for s, t in dim_pairs:
         for a in units[s]:
             for b in rng.sample(units[t], 2):
                 queries.append(['conv', a, b])
@@ -87,6 +97,7 @@ def run_impl(case):
     stores = [st]
     syms = {i: sympy.Symbol('k%d' % i, positive=True) for i in SYMVALS}
     out = []
+    callables = []
     for op in case['ops']:
         k = op[0]
         try:
@@ -99,13 +110,22 @@ def run_impl(case):
                 for s_ in r['ksym']:
                     mag = mag * syms[s_]
                 K = st.Quantity(mag, c07._term(stores, r['kunit']))
-                if r['div']:
-                    st.add_conversion_rule(c07._term(stores, r['from']), c07._term(stores, r['to']), lambda ureg, rhs, K=K: rhs / K)
+                if r.get('same_callable_as') is not None:
+                    fn = callables[r['same_callable_as']]
+                elif r['div']:
+                    fn = lambda ureg, rhs, K=K: rhs / K      # noqa: E731
                 else:
-                    st.add_conversion_rule(c07._term(stores, r['from']), c07._term(stores, r['to']), lambda ureg, rhs, K=K: rhs * K)
+                    fn = lambda ureg, rhs, K=K: rhs * K      # noqa: E731
+                callables.append(fn)
+                st.add_conversion_rule(c07._term(stores, r['from']), c07._term(stores, r['to']), fn)
                 out.append(['ok'])
             elif k == 'q':
                 a, b = c07._term(stores, op[1]), c07._term(stores, op[2])
+                # both entry points are tried, whatever the other does (a failed attempt must not be remembered)
+                try:
+                    st.get_conversion_factor(a, b)
+                except Exception:
+                    pass
                 q = st.convert(st.Quantity(1.0, a), b)
                 mag = q.magnitude
                 if isinstance(mag, sympy.Expr):
